@@ -7,7 +7,7 @@ CONSTANTS
   Version = 21
   Deviations = {}
   MaxLevel = 4
-  Acts = {"AddHole", "AddDepthData", "AddObjectData", "AddBadData", "RemovePlainChild", "CopyEdit", "CopyPurge", "ReopenRemoveHole", "ReopenRemoveGroup", "AddIntervalData", "Reopen", "RemoveHoleViaParent", "RemoveDataViaParent", "RemoveDataViaWorkspace"}
+  Acts = {"AddHole", "AddDepthData", "AddObjectData", "AddBadData", "RemovePlainChild", "CopyEdit", "CopyPurge", "ReopenRemoveHole", "ReopenRemoveGroup", "RemoveGroup", "AddIntervalData", "Reopen", "RemoveHoleViaParent", "RemoveDataViaParent", "RemoveDataViaWorkspace"}
   TrackSession = FALSE
   Kind = "float"
 VIEW vw
